@@ -312,7 +312,7 @@ def parse_rvalue(t, destty):
             n = re.match(r'(?:const )?(\d+)', parts[1].strip())
             return ('repeat', parse_operand(parts[0]), int(n.group(1)) if n else None)
         return ('array', [parse_operand(x) for x in split_top(inner)])
-    m = re.match(r'^(\{closure@[^}]*\})(?: \{(.*)\})?$', t)
+    m = re.match(r'^(\{(?:closure|coroutine|coroutine-closure)@[^}]*\})(?: \{(.*)\})?$', t)
     if m:
         fields = []
         if m.group(2):
